@@ -124,13 +124,35 @@ func (u *Universe) NewManifest(rng *rand.Rand, m *Model, repo string) MT {
 		} else {
 			data = pick(rng, u.Blobs)
 		}
-		return desc("application/octet-stream", data)
+		d := desc("application/octet-stream", data)
+		// optional descriptor fields: they describe the reference, they do not make it any less of one
+		switch rng.IntN(8) {
+		case 0:
+			d.URLs = []string{"https://foreign.example/layers/" + d.Digest.Encoded()[:12]}
+		case 1:
+			d.URLs = []string{"https://a.example/x", "https://b.example/x"}
+			d.MediaType = "application/vnd.oci.image.layer.nondistributable.v1.tar+gzip"
+		case 2:
+			d.Annotations = map[string]string{"org.opencontainers.image.title": "layer.bin"}
+		case 3:
+			d.ArtifactType = "application/vnd.example.artifact"
+		}
+		return d
 	}
 	manDesc := func(preferPresent bool) (ocispec.Descriptor, bool) {
 		if r != nil && len(r.Manifests) > 0 && (preferPresent || rng.IntN(2) == 0) {
 			d := pick(rng, sortedKeys(r.Manifests))
 			mf := r.Manifests[d]
-			return ocispec.Descriptor{MediaType: mf.MediaType, Digest: digest.Digest(d), Size: int64(len(mf.Data))}, true
+			md := ocispec.Descriptor{MediaType: mf.MediaType, Digest: digest.Digest(d), Size: int64(len(mf.Data))}
+			switch rng.IntN(6) {
+			case 0:
+				md.Platform = &ocispec.Platform{Architecture: "amd64", OS: "linux"}
+			case 1:
+				md.URLs = []string{"https://mirror.example/manifests/" + md.Digest.Encoded()[:12]}
+			case 2:
+				md.Annotations = map[string]string{"org.opencontainers.image.ref.name": "child"}
+			}
+			return md, true
 		}
 		if len(u.Manifests) > 0 {
 			x := pick(rng, u.Manifests)
